@@ -490,12 +490,9 @@ namespace fixedmath
     [[ gnu::const, gnu::always_inline ]]
     constexpr fixed_t fixed_divisionf( fixed_t x, fixed_t y) noexcept
       {
-      if( fixed_likely(y.v != 0) )
-        {
-        fixed_t result { as_fixed( (x << 16).v / y.v ) };
-//         if( fixed_likely( check_division_result(result)) )
-          return result;
-        }
+      //dividend is scaled by 2^16 before division, it has to fit fixed_internal after scaling
+      if( fixed_likely(y.v != 0 && check_division_result(x)) )
+        return as_fixed( (x.v * 65536) / y.v );
       return quiet_NaN_result(); //abort ?
       }
 
@@ -529,6 +526,12 @@ namespace fixedmath
       {
       if( fixed_likely(rh != 0) )
         {
+        if constexpr( is_unsigned_v<integral_type> && sizeof(integral_type) >= sizeof(fixed_internal) )
+          {
+          //divisor above range of fixed_internal is greater than any dividend, quotient truncates to 0
+          if( fixed_unlikely( rh > static_cast<integral_type>(std::numeric_limits<fixed_internal>::max()) ) )
+            return fixed_t{};
+          }
         fixed_t const result = as_fixed( lh.v / promote_type_to_signed(rh) );
 //         if( fixed_likely( check_division_result(result)) )
           return result;
